@@ -74,3 +74,74 @@ def materialise(events, open_tags=()):
     while stack:
         lines.append("</%s>" % stack.pop()[0])
     return "\n".join(lines) + "\n", ev_line
+
+
+# ---------------------------------------------------------------- cluster-level documents (spec/GkfClusters.tla)
+def cov_text(kind, nobs):
+    """cov-mat element for nobs observations, malformed in the named way"""
+    if kind == "none":
+        return None
+    dim, band = nobs, 0
+    diag, off = "4", "1"
+    if kind == "okband":
+        band = 1
+    if kind == "dimplus":
+        dim = nobs + 1
+    if kind == "dimminus":
+        dim = nobs - 1
+    if kind == "bandbig":
+        band = max(dim, 1)
+    if kind == "notpd":
+        band = min(1, max(dim - 1, 0))
+        off = "9"            # |off| > diag: indefinite (a 1x1 matrix gets a negative variance instead)
+        if dim <= 1:
+            diag = "-4"
+    if kind == "zerovar":
+        diag = "0"
+    el = []
+    for i in range(max(dim, 0)):
+        for j in range(i, min(dim, i + band + 1)):
+            el.append(diag if i == j else off)
+    if kind == "few":
+        el = el[:-1]
+    if kind == "many":
+        el = el + ["4"]
+    if kind == "badnum" and el:
+        el[-1] = "4x"
+    return '<cov-mat dim="%d" band="%d">%s</cov-mat>' % (dim, band, " ".join(el))
+
+
+def cluster_doc(doc):
+    """returns (text, end_line_of_cluster[1..n])"""
+    lines = [HEADER, '<gama-local xmlns="http://www.gnu.org/software/gama/gama-local">', "<network>",
+             '<parameters sigma-apr="10" sigma-act="apriori" />', "<points-observations>",
+             '<point id="A" x="0" y="0" z="0" fix="xyz" />', '<point id="B" x="100" y="0" z="1" adj="xyz" />',
+             '<point id="C" x="100" y="100" z="2" adj="xyz" />', '<point id="D" x="0" y="100" z="3" adj="xyz" />']
+    ends = {}
+    tgt = ["B", "C", "D"]
+    for k, c in enumerate(doc, 1):
+        t, n = c["t"], c["n"]
+        nobs = n * {"coordinates": 2, "vectors": 3}.get(t, 1)
+        if t == "obs":
+            lines.append('<obs from="A">')
+            for i in range(n):
+                lines.append('<distance to="%s" val="%d.5" stdev="5" />' % (tgt[i], 100 + 41 * i))
+        elif t == "height-differences":
+            lines.append("<height-differences>")
+            for i in range(n):
+                lines.append('<dh from="A" to="%s" val="%d.001" stdev="2" />' % (tgt[i], i + 1))
+        elif t == "coordinates":
+            lines.append("<coordinates>")
+            for i in range(n):
+                lines.append('<point id="%s" x="%d.01" y="%d.02" />' % (tgt[i], [100, 100, 0][i], [0, 100, 100][i]))
+        else:
+            lines.append("<vectors>")
+            for i in range(n):
+                lines.append('<vec from="A" to="%s" dx="%d.01" dy="%d.02" dz="%d.003" />' % (tgt[i], [100, 100, 0][i], [0, 100, 100][i], i + 1))
+        ct = cov_text(c["cov"], nobs)
+        if ct:
+            lines.append(ct)
+        lines.append("</%s>" % t)
+        ends[k] = len(lines)
+    lines += ["</points-observations>", "</network>", "</gama-local>"]
+    return "\n".join(lines) + "\n", ends
